@@ -273,7 +273,7 @@ def inverse_stack(stack, z):
         elif t[0] == "log10":
             z = 10.0 ** z
         elif t[0] == "exp":
-            z = math.log(z)
+            z = math.log(z) if z > 0 else (-INF if z == 0 else float("nan"))
     return z
 
 
@@ -1398,6 +1398,179 @@ def check_env(c, res):
     return None
 
 
+ROUTE_MSGS = ["normal", "natural", "gamma", "beta", "prior"] + ["t:" + k for k in STACKS]
+
+
+def gen_route(ctx, count):
+    """class (2)/(3) of the hardening sweep: ONE answer by several routes.  value_for (the quantile function), cdf, ppf,
+    logpdf and pdf of a message called with a python float, np.float64, np.float32, an int, a 0-d array, a 1-element array,
+    a k-element array (vectorised call), a (k, n) batch and -- on array messages -- one value per element or one float
+    broadcast over the elements.  Every message shape of ROUTE_MSGS appears in every run (round robin, not by luck)."""
+    rng = ctx.rng
+    cases = []
+    for i in range(count):
+        shape = ROUTE_MSGS[i % len(ROUTE_MSGS)]
+        scalar = (i // len(ROUTE_MSGS)) % 2 == 0
+        n = 1 if scalar else rng.randint(1, 4)
+        if shape == "prior":
+            msg, scalar, n, fam = gen_prior_message(rng), True, 1, "normal"
+        elif shape.startswith("t:"):
+            fam = "normal"
+            msg = gen_message(rng, fam, scalar, n, ID0 + 9000, shape[2:], gen_stack(rng, shape[2:]))
+            msg["params"] = [[hx(dy(rng, -1, 1)) for _ in range(n)], [hx(rng.choice([0.25, 0.5, 0.75, 1.0])) for _ in range(n)]]
+        else:
+            fam = shape
+            msg = gen_message(rng, fam, scalar, n, ID0 + 9000)
+        k = rng.randint(2, 4)
+        U, X = [], []
+        for r in range(k):
+            # unit values: dyadic (exact in binary32 too), both halves of (0, 1); the first case rows carry the end points
+            urow = [rng.randint(3, 61) / 64.0 for _ in range(n)]
+            if r == 0 and rng.random() < 0.25:
+                urow = [float(rng.choice([0, 1])) for _ in range(n)]
+            if r == 1:
+                urow = [u if u != 0.5 else 0.25 for u in urow]
+            U.append([hx(u) for u in urow])
+            xrow = []
+            for j in range(n):
+                if msg.get("ctor") or msg.get("t"):
+                    xrow.append(None)          # filled below from the unit value (a point inside the support)
+                elif fam in ("normal", "natural"):
+                    xrow.append(float(rng.randint(-6, 6)) if rng.random() < 0.4 else dy(rng, -6, 6))
+                elif fam == "gamma":
+                    xrow.append(float(rng.randint(1, 6)) if rng.random() < 0.4 else dy(rng, 0.125, 6))
+                else:
+                    xrow.append(rng.randint(1, 15) / 16.0)
+            X.append(xrow)
+        cases.append({"kind": "route", "shape": shape, "fam": fam, "scalar": scalar, "n": n, "msg": msg,
+                      "u": U, "x": X, "xq": [[rng.randint(3, 61) / 64.0 for _ in range(n)] for _ in range(k)]})
+    return cases
+
+
+def route_points(c):
+    """evaluation points of a transformed / prior-built message: quantiles of the same message at dyadic levels computed HERE
+    (standard library only), rounded to binary32 so that every route receives exactly the same number"""
+    import struct
+    from statistics import NormalDist
+    msg = c["msg"]
+    X = []
+    for i, row in enumerate(c["x"]):
+        out = []
+        for j, x in enumerate(row):
+            if x is None:
+                z = NormalDist().inv_cdf(c["xq"][i][j])
+                if msg.get("ctor") == "uniform_prior":
+                    a, b = unhex(msg["a"]), unhex(msg["b"])
+                    x = a + (b - a) * c["xq"][i][j]
+                elif msg.get("ctor") == "log_uniform_prior":
+                    a, b = unhex(msg["a"]), unhex(msg["b"])
+                    x = a * (b / a) ** c["xq"][i][j]
+                elif msg.get("ctor") == "log_gaussian_prior":
+                    x = math.exp(unhex(msg["a"]) + unhex(msg["b"]) * z)
+                elif msg.get("ctor") == "gaussian_prior":
+                    x = unhex(msg["a"]) + unhex(msg["b"]) * z
+                else:
+                    x = inverse_stack(msg["t"]["stack"], unhex(msg["params"][0][j]) + unhex(msg["params"][1][j]) * z)
+                x = struct.unpack("f", struct.pack("f", x))[0]
+            out.append(hx(x))
+        X.append(out)
+    return X
+
+
+def same_num(a, b, tol):
+    if math.isnan(a) or math.isnan(b):
+        return math.isnan(a) and math.isnan(b)
+    if math.isinf(a) or math.isinf(b):
+        return a == b
+    return abs(a - b) <= tol
+
+
+def oracle_route(c, res):
+    out = []
+    d = res["desc"]
+    transformed = d.get("t") is not None
+    bd = base_of(d)
+    fam, elems = bd["fam"], bd["elems"]
+    stack = d["t"]["stack"] if transformed else []
+    ref = res["ref"]
+    U = [[unhex(h) for h in r] for r in c["u"]]
+    X = [[unhex(h) for h in r] for r in c["x"]]
+    k, n = len(U), len(elems)
+
+    def scale(f, i, j, r, bc=False):
+        if f in ("logpdf", "pdf") and not transformed:
+            s = lp_elem_scale(fam, elems[j], X[i][0 if bc else j])
+            return max(1.0, abs(r), s) if f == "logpdf" else max(1.0, abs(r)) * max(1.0, s)
+        return max(1.0, abs(r)) if math.isfinite(r) else 1.0
+
+    for f in res["funcs"]:
+        if isinstance(ref[f], str):
+            out.append(("route-ref-exception:" + f, "scalar route: %s(float) on a scalar message raised %s" % (f, ref[f])))
+    # (a) the scalar route against the libraries: quantile and cdf of the base family through the stack
+    if "lib_q" in res and not isinstance(ref.get("value_for"), str):
+        for i in range(k):
+            for j in range(n):
+                want = inverse_stack(stack, unhex(res["lib_q"][i][j]))
+                got = unhex(ref["value_for"][i][j])
+                if not same_num(got, want, 1e-9 * max(1.0, abs(want))):
+                    out.append(("quantile-library", "value_for(%r) = %r on the scalar route, library quantile %r" % (U[i][j], got, want)))
+                if not isinstance(ref.get("cdf"), str):
+                    gc, wc = unhex(ref["cdf"][i][j]), unhex(res["lib_cdf"][i][j])
+                    if not same_num(gc, wc, 1e-9):
+                        out.append(("cdf-library", "cdf(%r) = %r on the scalar route, library cdf %r" % (X[i][j], gc, wc)))
+    # (b) every route agrees elementwise with the scalar route, and is the inverse of the cdf ON THAT ROUTE
+    for name, rr in sorted(res["routes"].items()):
+        f32 = name.endswith("32")
+        rtol = 2e-5 if f32 else 1e-12
+        reference = res.get("ref_bcast", ref) if name == "bcast" else ref
+        for f in res["funcs"]:
+            got = rr.get(f)
+            want = reference.get(f)
+            if isinstance(want, str) or got is None:
+                continue
+            if isinstance(got, str):
+                out.append(("route-%s:%s@%s" % ("shape" if got.startswith("shape") else "exception", f, name),
+                            "%s through route %s: %s (scalar route answers)" % (f, name, got)))
+                continue
+            bad = None
+            for i in range(k):
+                for j in range(n):
+                    if got[i][j] is None:
+                        continue
+                    g, w = unhex(got[i][j]), unhex(want[i][j])
+                    if not same_num(g, w, rtol * scale(f, i, j, w, name == "bcast")):
+                        bad = bad or (i, j, g, w)
+                    if f == "cdf_vf":
+                        u = U[i][0 if name == "bcast" else j]
+                        if not same_num(g, u, 2e-5 if f32 else 1e-9):
+                            out.append(("inverse-pair@" + name, "cdf(value_for(u)) = %r for u = %r on route %s (message element %d)" % (g, u, name, j)))
+            if bad:
+                pt = (U if f in ("value_for", "cdf_vf", "ppf") else X)[bad[0]][0 if name == "bcast" else bad[1]]
+                out.append(("route:%s@%s" % (f, name), "%s at %r is %r through route %s but %r on the scalar route (row %d, element %d)"
+                            % (f, pt, bad[2], name, bad[3], bad[0], bad[1])))
+        # a quantile function is increasing: vectorised values ordered like the unit values
+        vf = rr.get("value_for")
+        if isinstance(vf, list) and name != "bcast":
+            for j in range(n):
+                col = sorted((U[i][j], unhex(vf[i][j])) for i in range(k) if vf[i][j] is not None)
+                for (u0, v0), (u1, v1) in zip(col, col[1:]):
+                    if u0 < u1 and not v0 < v1 and not (math.isnan(v0) or math.isnan(v1)):
+                        out.append(("quantile-monotone@" + name, "value_for(%r) = %r >= value_for(%r) = %r through route %s" % (u0, v0, u1, v1, name)))
+    # ppf (NormalMessage only) is the same function as value_for
+    if "ppf" in res["funcs"] and not isinstance(ref.get("ppf"), str) and not isinstance(ref.get("value_for"), str):
+        for i in range(k):
+            for j in range(n):
+                a, b = unhex(ref["ppf"][i][j]), unhex(ref["value_for"][i][j])
+                if not same_num(a, b, 1e-9 * max(1.0, abs(b))):
+                    out.append(("ppf-value_for", "ppf(%r) = %r but value_for = %r" % (U[i][j], a, b)))
+    seen, uniq = set(), []
+    for a_, m_ in out:           # one report per kind of disagreement (the first route that shows it is named in the aspect)
+        if a_.split("@")[0] not in seen:
+            seen.add(a_.split("@")[0])
+            uniq.append((a_, m_))
+    return uniq
+
+
 def nontrivial(c):
     if c["kind"] == "alg":
         return c["law"] != "pow1" or c["fam"] != "fixed"
@@ -1453,8 +1626,13 @@ def run(ctx):
         pass
     built = ctx.build()
     n_alg, n_proj, n_dens, n_det, n_hist, n_lpdf, n_mix = (400, 150, 50, 70, 110, 160, 40) if not thorough else (2600, 900, 320, 500, 800, 1200, 200)
+    n_route = 72 if not thorough else 480
     cases = gen_alg(ctx, n_alg) + gen_proj(ctx, n_proj) + gen_dens(ctx, n_dens) + gen_det(ctx, n_det) + gen_hist(ctx, n_hist) \
         + gen_lpdf(ctx, n_lpdf) + gen_mixed(ctx, n_mix) + gen_mixedparam(ctx, n_mix)
+    route_cases = gen_route(ctx, n_route)
+    for rc in route_cases:
+        rc["x"] = route_points(rc)
+    cases += route_cases
     corpus_dir = os.path.join(common.VERIF, "corpus", "C17")
     regression = {}            # id(case) -> file name, for the pinned cases of findings that have been repaired
     if os.path.isdir(corpus_dir):
@@ -1518,6 +1696,13 @@ def run(ctx):
                 coq_idx.append(i)
         elif kind == "mixedparam":
             fails += oracle_mixedparam(c, res)
+        elif kind == "route":
+            ctx.hist("route-message", c["shape"] + ("/scalar" if c["scalar"] else "/array"))
+            for rn_, rr_ in res.get("routes", {}).items():
+                for f_, v_ in rr_.items():
+                    if isinstance(v_, list):
+                        ctx.hist("route", f_ + "@" + rn_)
+            fails += oracle_route(c, res)
         elif kind == "hist":
             fails += oracle_hist(c, res)
             t = coq_hist(c, res)
